@@ -4,7 +4,8 @@ from model import (dstr, strip, fact_holds, mentions_field, mentions_call, menti
                    mentions_enum, const_value, walk)
 from rules import (guarded, calls_to, field_writes, who_may_write, loops_over, basename, origins,
                    is_var, is_enum, lastname, reject_if, _resolve_local, reached_only_via)
-from props.scan_common import OUTDIRTY, ts_comparisons, check_prune_recheck, check_recheck_is_full
+from props.scan_common import OUTDIRTY, ts_comparisons, check_prune_recheck, check_recheck_is_full, all_clean_loops, all_clean_base
+from rules import justified
 
 
 def oo(a):
@@ -76,7 +77,15 @@ def run(ctx):
                 dstr(strip(rets[0].get('e'))).count('.') <= 1
         ctx.check('C03.G1', bool(fns_) and not lam and all(is_dirty_pred(n) for n in fns_), cn.name, 'CleanNode:all-clean-predicate', cn.where(e),
                   'the "all inputs clean" test asks Node::dirty() of every regular input (predicate: %s)' % (fns_ or 'lambda'))
-    ctx.check('C03.G1', nl >= 1 and len(fi) == 1 and n >= 2, cn.name, 'CleanNode:shape', cn.loc,
+    # ... or the same test written out as a loop (a lambda algorithm is analysed as the loop it abbreviates)
+    acl = all_clean_loops(prog, cn)
+    for l in acl:
+        inits = [dstr(_resolve_local(cn, x.get('init'))) for x in cn.events('decl') if x['n'] == l['var'] and x.get('init') is not None]
+        ctx.check('C03.G1', bool(inits) and all('Edge::inputs_.begin()' in i and 'order_only' not in i for i in inits), cn.name,
+                  'CleanNode:all-clean-loop-range', 'src/build.cc:%s' % l['line'],
+                  'the written-out "all inputs clean" loop covers [begin, end - order_only): starts at %s, bound %s' % (inits, l['bound'][:60]))
+        ctx.inst('C03.G1', 'src/build.cc:%s' % l['line'], 'the loop goes round only past an input whose Node::dirty() is false')
+    ctx.check('C03.G1', nl >= 1 and len(fi) + len(acl) == 1 and n >= 2, cn.name, 'CleanNode:shape', cn.loc,
               'CleanNode has its all-clean test and most-recent-input loop')
     ctx.floor('C03.G1', 9)
 
@@ -148,7 +157,8 @@ def run(ctx):
         facts = cn.facts_at(e)
         ok = fact_holds(facts, is_var('outputs_dirty'), False) and \
             (fact_holds(facts, lambda a: 'find_if' in dstr(a) and 'end' in dstr(a).split('find_if')[-1], True) or
-             fact_holds(facts, lambda a: 'none_of' in dstr(a), True) or fact_holds(facts, lambda a: 'any_of' in dstr(a), False))
+             fact_holds(facts, lambda a: 'none_of' in dstr(a), True) or fact_holds(facts, lambda a: 'any_of' in dstr(a), False) or
+             any(justified(prog, cn, fa, fp, all_clean_base(prog, cn)) for fp, fa in facts.values()))
         ctx.check('C03.O1', ok, cn.name, 'CleanNode:unwant-guard', cn.where(e),
                   'un-want only under "all regular inputs clean" and "outputs not dirty"')
         blk = cn.blocks[e['_b']]['ev']
